@@ -18,6 +18,7 @@ from concurrent.futures import ThreadPoolExecutor, as_completed
 
 VERIF = os.path.dirname(os.path.dirname(os.path.abspath(__file__)))
 REPO = os.environ.get('VERIF_REPO', '/repo')
+OUT = os.environ.get('VERIF_OUT', VERIF)       # where evidence/ and replays/ are written (seed runs redirect it)
 GUARD = 'SKINNY_C_VERIF'
 JOBS = int(os.environ.get('VERIF_JOBS', str(os.cpu_count() or 4)))
 SHIPPED_STD = 'c99'                       # options.mak: STDC_CFLAGS = -std=c99
@@ -480,7 +481,7 @@ def run_check(pid, tier, plan, seed=0, only=None, keep=False):
                     entry['verdict'] = 'vacuous-or-twin-inconclusive'
             elif r.status == 'fail':
                 # counterexample: replay on the real build before reporting
-                rep_dir = os.path.join(VERIF, 'replays', pid, re.sub(r'\W+', '_', q.name))
+                rep_dir = os.path.join(OUT, 'replays', pid, re.sub(r'\W+', '_', q.name))
                 reproduced = None
                 if not q.replay:
                     inconclusive.append((q.name, 'counterexample (no replay route): ' + ', '.join(sorted({d for _, d in r.failed}))[:300]))
@@ -533,8 +534,8 @@ def run_check(pid, tier, plan, seed=0, only=None, keep=False):
               'violations': len(violations)}
         if plan.get('level') == 'translation_validation':
             cov['programs'] = discharged; cov['disagreements_checked'] = len(violations) + len([1 for n, w in inconclusive if 'counterexample' in w])
-        os.makedirs(os.path.join(VERIF, 'evidence'), exist_ok=True)
-        with open(os.path.join(VERIF, 'evidence', pid + '.json'), 'w') as f:
+        os.makedirs(os.path.join(OUT, 'evidence'), exist_ok=True)
+        with open(os.path.join(OUT, 'evidence', pid + '.json'), 'w') as f:
             json.dump(ev, f, indent=1)
         for q, (prop, d), path in violations:
             log('VIOLATION property=%s replay=%s' % (pid, path))
